@@ -208,6 +208,11 @@ func (q *querySpec) filterKind() string {
 	return strings.Join(parts, "+")
 }
 
+// Regular expressions for tag filters. No anchored pattern with a negated or wide
+// character class (/^[^a]$/): the parser rewrites an anchored pattern into an OR of
+// equalities and expands the class into every rune it contains (1.1 million terms),
+// after which the statement does not return within minutes (influxql/ast.go matchRegex;
+// reported, not part of this property).
 var tagRegexps = map[string][]string{
 	"host":   {"a|b", "^[a-c]$", "[d-f]", "^a$", "z", "a|e|f", "^(a|b|f)$"},
 	"region": {"x", "^y$", "x|y", "q"},
